@@ -373,10 +373,18 @@ def r07d(ctx, run):
                 run.ok(cc.site(ln), "%s on %s: accepted=%s, code generator %s" % (op, kind, acc, "believes it unreachable" if panics else "has an arm"))
 
 
+def r07e(ctx, run):
+    """a global whose initialiser is not constant must be REPORTED (GlobalNotConst): otherwise it reaches code generation, which panics on a
+    non-compilable constant - no error, no executable (shared with C15 R15.d)"""
+    import c15
+    c15.r15d(ctx, run)
+
+
 def rules(ctx):
     return [
         Rule("R07.a", "the error gate (both diagnostic sources, exit 1) and the unsafe assert dominate every code-generation call; comptime evaluation is guarded", 12, r07a),
         Rule("R07.b", "every TyDiagnostic literal names its expression (6+1 enumerated exceptions)", 75, r07b),
         Rule("R07.d", "operator/type combinations the checker accepts are ones the code generator has an arm for (belief vs use, across crates)", 80, r07d),
+        Rule("R07.e", "every path that finishes a global's body passes the GlobalNotConst test (must-pass-through on MIR)", 1, r07e),
         Rule("R07.c", "is_safe_to_compile: complete error set, membership first, Missing/unknown/unlabelled unsafe; severity mapping", 11, r07c),
     ]
